@@ -876,6 +876,9 @@ func (ix *Index) populateDeleteClaim(ctx context.Context, cl schema.Claim, vr *j
 		return nil
 	}
 	mm.Set(keyDeleted.Key(target, cl.ClaimDateString(), br), "")
+	// Only a delete claim that produced a "deleted" row may reach the
+	// in-memory deletion caches, which are rebuilt from those rows on restart.
+	mm.noteDelete(cl)
 	if meta.CamliType == schema.TypeClaim {
 		return nil
 	}
@@ -905,7 +908,6 @@ func (ix *Index) populateClaim(ctx context.Context, fetcher *missTrackFetcher, b
 		if err := ix.populateDeleteClaim(ctx, claim, vr, mm); err != nil {
 			return err
 		}
-		mm.noteDelete(claim)
 		return nil
 	}
 
